@@ -128,6 +128,8 @@ func init() {
 			obUnits(c, "C14.3")
 			ob4 := c.R.Ob("C14.4", "ctrl/listener", "lexer and parser report to one collecting listener whose list is what Parse returns", 1)
 			c.SingleCollectingListener(ob4)
+			ob6 := c.R.Ob("C14.6", "sibling/line-split", "the error renderer cuts the source into lines at the character the lexer counts lines by", 1)
+			c.RendererSplitsOnNewline(ob6)
 			ob5 := c.R.Ob("C14.5", "origin/lexer-input", "the lexer reads exactly the text given to Parse (errors are located in the caller's text)", 1)
 			c.LexerInputIsTheText(ob5, c.Fn(ob5, relParser, "Parse"))
 		},
